@@ -1,5 +1,5 @@
 (* Extraction of the mirror model (C17). ExtrOcamlBasic only.
-   run 1 (meth :: same_fs :: linkable :: events)   meth 0 copy, 1 move, 2 link
+   run 1 (meth :: same_fs :: linkable :: drf :: dmd :: events)   meth 0 copy, 1 move, 2 link
    events: 1 p c write | 2 p remove | 3 p created | 4 p modified | 5 p deleted | 6 p q moved
    output per event: nfops [code p ndel deleted..].. then the state:
      nsrc [p c]..  ndst [tmp p c ok]..  ntracked [p]..  ringerr
@@ -72,8 +72,9 @@ Fixpoint run_dump (mc : mcfg) (s : mst) (evs : list mev) : list Z :=
 
 Definition run (f : Z) (args : list Z) : list Z :=
   match f, args with
-  | 1, m :: sf :: lk :: r =>
-      run_dump (mkM (if m =? 0 then MCopy else if m =? 1 then MMove else MLink) (negb (sf =? 0)) (negb (lk =? 0)))
+  | 1, m :: sf :: lk :: fr :: fm :: r =>
+      run_dump (mkM (if m =? 0 then MCopy else if m =? 1 then MMove else MLink) (negb (sf =? 0)) (negb (lk =? 0))
+                    (negb (fr =? 0)) (negb (fm =? 0)))
                minit (parse_evs (length r) r)
   | _, _ => [-999]
   end.
